@@ -88,6 +88,7 @@ Section MachineInv.
   Lemma run_seq_ok prog x s : I x s -> I x (ost (run_seq E prog s)).
   Proof. intro H. unfold run_seq. apply machine_ok; [apply okk_done | exact H]. Qed.
 End MachineInv.
+Arguments okk {S X} I k.
 
 (** * Decidable equalities decide equality *)
 Lemma name_eqb_true a b : name_eqb a b = true -> a = b.
@@ -290,3 +291,570 @@ Lemma copy_no_opt_extra m : opts_of (m_extra (copy_no_opt m)) = [].
 Proof.
   unfold copy_no_opt. cbn. induction (m_extra m) as [|[] l IH]; cbn; auto.
 Qed.
+
+(** * Context bookkeeping: which operation touches which field *)
+Lemma set_response_fields c rid m :
+  c_query (set_response c rid m) = c_query c /\ c_client_opt (set_response c rid m) = c_client_opt c
+  /\ c_client_addr (set_response c rid m) = c_client_addr c /\ c_resp_opt (set_response c rid m) = c_resp_opt c
+  /\ c_from_udp (set_response c rid m) = c_from_udp c.
+Proof. unfold set_response. destruct (pop_opt (m_extra m)) as [[ex o]|]; cbn; repeat split. Qed.
+
+Lemma set_q0_name_extra q n : m_extra (set_q0_name q n) = m_extra q.
+Proof. unfold set_q0_name. destruct (m_question q); reflexivity. Qed.
+
+Definition client_opts (co : option opt) : list eopt :=
+  match co with Some o => o_opts o | None => [] end.
+
+Lemma first_code_some code l e : first_code code l = Some e -> In e l /\ fst e = code.
+Proof.
+  unfold first_code. intro H. apply find_some in H as [H1 H2]. apply N.eqb_eq in H2. auto.
+Qed.
+
+Lemma pick_codes_in codes l e : In e (pick_codes codes l) -> In e l /\ In (fst e) codes.
+Proof.
+  unfold pick_codes. intro H. apply filter_In in H as [H1 H2]. split; [exact H1|].
+  apply existsb_exists in H2 as (c & Hc & E). apply N.eqb_eq in E. now subst.
+Qed.
+
+(** * C15, upstream side: what is handed to an upstream *)
+Section UpstreamSide.
+  Variable ups : N -> msg -> option msg.
+  Variable clock : N -> option N.
+  Variable xp : N -> xplugin.
+  Variable wp : N -> wplugin.
+  Variable mp : N -> matcher.
+  Variable co : option opt.        (* the client's OPT *)
+  Variable ca : option addr.       (* the client's address *)
+
+  (** An option a plugin of the table puts into the query OPT: a client option
+      whose code a forward_edns0opt is configured for, the client's
+      client-subnet option through a forwarding ecs_handler, or the
+      client-subnet option an ecs_handler makes from its preset / the client
+      address. *)
+  Definition allowed_up (e : eopt) : Prop :=
+    (exists w codes, wp w = WFwdOpt codes /\ In (fst e) codes /\ In e (client_opts co))
+    \/ (exists w fwd send preset m4 m6, wp w = WEcs fwd send preset m4 m6 /\
+          ((fwd = true /\ fst e = ecs_code /\ In e (client_opts co))
+           \/ (exists a, preset = Some a /\ e = new_subnet a m4 m6)
+           \/ (exists a, send = true /\ ca = Some a /\ e = new_subnet a m4 m6))).
+
+  Definition fresh_ok (o : opt) : Prop :=
+    o_udp o = edns0_size /\ o_do o = false /\ o_ver o = 0 /\ Forall allowed_up (o_opts o).
+  Definition one_fresh (m : msg) : Prop := exists o, opts_of (m_extra m) = [o] /\ fresh_ok o.
+
+  Definition invU (_ : unit) (s : state) : Prop :=
+    c_client_opt (fst s) = co /\ c_client_addr (fst s) = ca /\ one_fresh (c_query (fst s))
+    /\ Forall (fun x => one_fresh (snd x)) (w_log (snd s)).
+
+  Lemma invU_frame s s' :
+    c_client_opt (fst s') = c_client_opt (fst s) -> c_client_addr (fst s') = c_client_addr (fst s) ->
+    m_extra (c_query (fst s')) = m_extra (c_query (fst s)) -> w_log (snd s') = w_log (snd s) ->
+    forall x, invU x s -> invU x s'.
+  Proof.
+    intros E1 E2 E3 E4 x (H1 & H2 & H3 & H4). unfold invU, one_fresh in *.
+    rewrite E1, E2, E3, E4. auto.
+  Qed.
+
+  Lemma one_fresh_wire m : one_fresh m -> one_fresh (wire m).
+  Proof.
+    intros (o & Ho & H1 & H2 & H3 & H4). unfold wire.
+    destruct (map_last_opt_last (fun o => with_ext o (m_rcode m / 16)) (m_extra m) [] o Ho) as (ex' & -> & E).
+    exists (with_ext o (m_rcode m / 16)). split; [exact E|]. repeat split; assumption.
+  Qed.
+
+  Lemma set_fresh_invU s r x : invU x s -> invU x (set_fresh s r).
+  Proof.
+    destruct s as [c w]. unfold set_fresh. apply invU_frame; cbn; try reflexivity;
+      destruct (set_response_fields c (w_next w) r) as (E1 & E2 & E3 & _); congruence.
+  Qed.
+
+  Lemma exec_x_invU p x s : invU x s -> invU x (fst (exec_x ups p s)).
+  Proof.
+    intro H. destruct s as [c w]. destruct p; cbn [exec_x].
+    - unfold set_opt. destruct (hosts_reply h (c_query c)); cbn [fst]; [apply set_fresh_invU|]; exact H.
+    - unfold set_opt. destruct (black_hole_reply v4 v6 (c_query c)); cbn [fst]; [apply set_fresh_invU|]; exact H.
+    - unfold set_opt. destruct (arbitrary_reply z (c_query c)); cbn [fst]; [apply set_fresh_invU|]; exact H.
+    - destruct (c_resp c); cbn [fst]; [|exact H]. revert H. apply invU_frame; reflexivity.
+    - assert (H' : invU x (c, log_up w u (wire (c_query c)))).
+      { destruct H as (H1 & H2 & H3 & H4). repeat split; cbn; try assumption.
+        constructor; [cbn; apply one_fresh_wire; exact H3 | exact H4]. }
+      destruct (ups u (wire (c_query c))); cbn [fst]; [apply set_fresh_invU|]; exact H'.
+    - cbn [fst]. revert H. apply invU_frame; reflexivity.
+  Qed.
+
+  Lemma reject_x_invU rc x s : invU x s -> invU x (reject_x rc s).
+  Proof. intro H. unfold reject_x. apply set_fresh_invU. exact H. Qed.
+
+  (** appending allowed options to the query OPT *)
+  Lemma q_add_opts_fields c es :
+    c_client_opt (q_add_opts c es) = c_client_opt c /\ c_client_addr (q_add_opts c es) = c_client_addr c
+    /\ c_resp (q_add_opts c es) = c_resp c /\ c_resp_opt (q_add_opts c es) = c_resp_opt c
+    /\ c_upstream_opt (q_add_opts c es) = c_upstream_opt c /\ c_rid (q_add_opts c es) = c_rid c
+    /\ m_question (c_query (q_add_opts c es)) = m_question (c_query c)
+    /\ m_id (c_query (q_add_opts c es)) = m_id (c_query c).
+  Proof. unfold q_add_opts. destruct (map_last_opt _ _); cbn; repeat split. Qed.
+
+  Lemma q_add_opts_invU c w es x :
+    Forall allowed_up es -> invU x (c, w) -> invU x (q_add_opts c es, w).
+  Proof.
+    intros Hes (H1 & H2 & (o & Ho & F1 & F2 & F3 & F4) & H4).
+    destruct (q_add_opts_fields c es) as (E1 & E2 & _).
+    unfold invU. cbn [fst snd] in *. rewrite E1, E2. repeat split; try assumption.
+    unfold q_add_opts.
+    destruct (map_last_opt_last (fun o => add_opts o es) (m_extra (c_query c)) [] o Ho) as (ex' & -> & E).
+    exists (add_opts o es). cbn. split; [exact E|]. repeat split; try assumption.
+    cbn. apply Forall_app. split; assumption.
+  Qed.
+
+  Lemma cache_invU inst k : okk invU k -> okk invU (cache_exec clock inst k).
+  Proof.
+    intros Hk x [c w] Hs. unfold cache_exec.
+    destruct (msg_key (c_query c)) as [key|]; [|apply Hk; exact Hs].
+    set (c1 := match get_cached clock key (w_store w inst) (w_next w) with
+               | Some r => set_response c (w_next w) (with_id r (m_id (c_query c)))
+               | None => c end).
+    assert (H1 : invU x (c1, bump w)).
+    { revert Hs. apply invU_frame; cbn; try reflexivity; subst c1;
+        destruct (get_cached clock key (w_store w inst) (w_next w)); try reflexivity;
+        destruct (set_response_fields c (w_next w) (with_id m (m_id (c_query c)))) as (E1 & E2 & E3 & _); congruence. }
+    specialize (Hk x _ H1). destruct (k (c1, bump w)) as [[t [c2 w2]] err]. unfold ost in *. cbn [fst snd] in *.
+    destruct (c_resp c2) as [r|]; [|exact Hk].
+    match goal with |- context [if ?b then _ else _] => destruct b end; [|exact Hk].
+    unfold save. destruct (0 <? save_ttl r); [|exact Hk].
+    revert Hk. apply invU_frame; reflexivity.
+  Qed.
+
+  Lemma redirect_invU f k : okk invU k -> okk invU (redirect_exec f k).
+  Proof.
+    intros Hk x [c w] Hs. unfold redirect_exec.
+    destruct (m_question (c_query c)) as [|qu [|]]; try (apply Hk; exact Hs).
+    destruct (negb (qclass qu =? class_inet)); [apply Hk; exact Hs|].
+    destruct (f (qname qu)) as [tgt|]; [|apply Hk; exact Hs].
+    assert (H1 : invU x (with_query c (set_q0_name (c_query c) tgt), w)).
+    { revert Hs. apply invU_frame; cbn; try reflexivity. apply set_q0_name_extra. }
+    specialize (Hk x _ H1). destruct (k (with_query c (set_q0_name (c_query c) tgt), w)) as [[t [c2 w2]] err].
+    unfold ost in *. cbn [fst snd] in *. revert Hk. apply invU_frame; cbn [fst snd].
+    - destruct (c_resp c2); reflexivity.
+    - destruct (c_resp c2); reflexivity.
+    - destruct (c_resp c2); cbn; rewrite set_q0_name_extra; reflexivity.
+    - reflexivity.
+  Qed.
+
+  Lemma resp_add_opts_frame c es :
+    c_client_opt (resp_add_opts c es) = c_client_opt c /\ c_client_addr (resp_add_opts c es) = c_client_addr c
+    /\ c_query (resp_add_opts c es) = c_query c /\ c_resp (resp_add_opts c es) = c_resp c
+    /\ c_upstream_opt (resp_add_opts c es) = c_upstream_opt c.
+  Proof. unfold resp_add_opts. destruct (c_resp_opt c); cbn; repeat split. Qed.
+
+  Lemma resp_add_opts_invU c w es x : invU x (c, w) -> invU x (resp_add_opts c es, w).
+  Proof.
+    apply invU_frame; cbn; destruct (resp_add_opts_frame c es) as (E1 & E2 & E3 & _); congruence.
+  Qed.
+
+  Lemma ecs_invU w fwd send preset m4 m6 k :
+    wp w = WEcs fwd send preset m4 m6 -> okk invU k -> okk invU (ecs_exec fwd send preset m4 m6 k).
+  Proof.
+    intros Hw Hk x [c wd] Hs. unfold ecs_exec.
+    destruct (add_ecs fwd send preset m4 m6 c) as [[c1 forwarded]|] eqn:Ha; [|exact Hs].
+    assert (H1 : invU x (c1, wd)).
+    { unfold add_ecs in Ha. destruct (q_opt c) as [qo|]; [|discriminate].
+      destruct (m_question (c_query c)) as [|qu qs]; [discriminate|].
+      destruct (has_code ecs_code (o_opts qo)); [inversion Ha; subst; exact Hs|].
+      destruct (negb (qclass qu =? class_inet)); [inversion Ha; subst; exact Hs|].
+      destruct Hs as (Hco & Hca & Hq & Hl). cbn [fst snd] in *.
+      destruct (if fwd then match c_client_opt c with Some co0 => first_code ecs_code (o_opts co0) | None => None end else None)
+        as [o|] eqn:Hf.
+      - inversion Ha; subst c1 forwarded. apply q_add_opts_invU; [|repeat split; assumption].
+        constructor; [|constructor]. right. exists w, fwd, send, preset, m4, m6. split; [exact Hw|]. left.
+        destruct fwd; [|discriminate]. rewrite Hco in Hf. destruct co as [co0|]; [|discriminate].
+        apply first_code_some in Hf as [Hin Hc]. auto.
+      - destruct preset as [a|].
+        + inversion Ha; subst c1 forwarded. apply q_add_opts_invU; [|repeat split; assumption].
+          constructor; [|constructor]. right. exists w, fwd, send, (Some a), m4, m6. split; [exact Hw|].
+          right. left. eauto.
+        + destruct send.
+          * destruct (c_client_addr c) as [a|] eqn:Hadr; inversion Ha; subst c1 forwarded;
+              [|repeat split; cbn; first [assumption | congruence]].
+            apply q_add_opts_invU; [|repeat split; cbn; first [assumption | congruence]].
+            constructor; [|constructor]. right. exists w, fwd, true, None, m4, m6. split; [exact Hw|].
+            right. right. exists a. repeat split; congruence.
+          * inversion Ha; subst. repeat split; assumption. }
+    specialize (Hk x _ H1). destruct (k (c1, wd)) as [[t [c2 w2]] err]. unfold ost in *. cbn [fst snd] in *.
+    destruct err; [exact Hk|]. destruct forwarded; [|exact Hk].
+    destruct (c_resp_opt c2); [|exact Hk]. destruct (c_upstream_opt c2) as [uo|]; [|exact Hk].
+    destruct (first_code ecs_code (o_opts uo)); [|exact Hk].
+    apply resp_add_opts_invU. exact Hk.
+  Qed.
+
+  Lemma fwdopt_invU w codes k :
+    wp w = WFwdOpt codes -> okk invU k -> okk invU (fwdopt_exec codes k).
+  Proof.
+    intros Hw Hk x [c wd] Hs. unfold fwdopt_exec.
+    destruct (q_opt c); [|exact Hs].
+    assert (H1 : invU x (match c_client_opt c with
+                         | Some co0 => q_add_opts c (pick_codes codes (o_opts co0))
+                         | None => c end, wd)).
+    { destruct (c_client_opt c) as [co0|] eqn:Hc; [|exact Hs].
+      apply q_add_opts_invU; [|exact Hs]. apply Forall_forall. intros e He.
+      apply pick_codes_in in He as [Hin Hcode]. left. exists w, codes. split; [exact Hw|]. split; [exact Hcode|].
+      destruct Hs as (Hco & _). cbn in Hco. rewrite Hc in Hco. rewrite <- Hco. exact Hin. }
+    specialize (Hk x _ H1).
+    destruct (k (match c_client_opt c with
+                 | Some co0 => q_add_opts c (pick_codes codes (o_opts co0))
+                 | None => c end, wd)) as [[t [c2 w2]] err].
+    unfold ost in *. cbn [fst snd] in *.
+    destruct err; [exact Hk|]. destruct (c_upstream_opt c2) as [uo|]; [|exact Hk].
+    destruct (c_resp_opt c2); [|exact Hk]. apply resp_add_opts_invU. exact Hk.
+  Qed.
+
+  Lemma wrap_w_invU w k : okk invU k -> okk invU (wrap_w clock (wp w) k).
+  Proof.
+    intro Hk. destruct (wp w) eqn:Hw; cbn [wrap_w].
+    - apply cache_invU; exact Hk.
+    - apply redirect_invU; exact Hk.
+    - eapply ecs_invU; eassumption.
+    - eapply fwdopt_invU; eassumption.
+  Qed.
+
+  Lemma entry_invU prog s : invU tt s -> invU tt (fst (entry ups clock xp wp mp prog s)).
+  Proof.
+    intro H. unfold entry.
+    pose proof (run_seq_ok state (plug_env ups clock xp wp mp) unit invU
+                  (fun e => exec_x_invU (xp e)) reject_x_invU (fun w => wrap_w_invU w) prog tt s H) as R.
+    destruct (run_seq (plug_env ups clock xp wp mp) prog s) as [[t s'] err]. exact R.
+  Qed.
+End UpstreamSide.
+
+(** * Caches never hold an OPT in the additional section (no hypothesis at all) *)
+Section StoreSide.
+  Variable ups : N -> msg -> option msg.
+  Variable clock : N -> option N.
+  Variable xp : N -> xplugin.
+  Variable wp : N -> wplugin.
+  Variable mp : N -> matcher.
+
+  Definition stores_no_opt (w : world) : Prop :=
+    forall i k v, In (k, v) (w_store w i) -> opts_of (m_extra v) = [].
+  Definition invS (_ : unit) (s : state) : Prop := stores_no_opt (snd s).
+
+  Lemma save_no_opt inst key r w : stores_no_opt w -> stores_no_opt (save inst key r w).
+  Proof.
+    intros H. unfold save. destruct (0 <? save_ttl r); [|exact H].
+    intros i k v. unfold put_store. cbn. destruct (i =? inst) eqn:E; [|apply H].
+    intros [Hin|Hin]; [|apply N.eqb_eq in E; subst; eapply H; exact Hin].
+    inversion Hin; subst. apply copy_no_opt_extra.
+  Qed.
+
+  Lemma set_fresh_store s r : w_store (snd (set_fresh s r)) = w_store (snd s).
+  Proof. destruct s as [c w]. reflexivity. Qed.
+
+  Lemma exec_x_store p s : w_store (snd (fst (exec_x ups p s))) = w_store (snd s).
+  Proof.
+    destruct s as [c w]. destruct p; cbn [exec_x]; unfold set_opt.
+    - destruct (hosts_reply h (c_query c)); reflexivity.
+    - destruct (black_hole_reply v4 v6 (c_query c)); reflexivity.
+    - destruct (arbitrary_reply z (c_query c)); reflexivity.
+    - destruct (c_resp c); reflexivity.
+    - destruct (ups u (wire (c_query c))); reflexivity.
+    - reflexivity.
+  Qed.
+
+  Lemma exec_x_invS p x s : invS x s -> invS x (fst (exec_x ups p s)).
+  Proof. unfold invS, stores_no_opt. rewrite exec_x_store. auto. Qed.
+
+  Lemma reject_x_invS rc x s : invS x s -> invS x (reject_x rc s).
+  Proof. unfold invS, stores_no_opt, reject_x. rewrite set_fresh_store. auto. Qed.
+
+  Lemma wrap_w_invS w k : okk invS k -> okk invS (wrap_w clock (wp w) k).
+  Proof.
+    intros Hk x [c wd] Hs. destruct (wp w); cbn [wrap_w].
+    - unfold cache_exec. destruct (msg_key (c_query c)) as [key|]; [|apply Hk; exact Hs].
+      match goal with |- context [k (?c1, bump wd)] => specialize (Hk x (c1, bump wd) Hs); destruct (k (c1, bump wd)) as [[t [c2 w2]] err] end.
+      unfold ost in *. cbn [fst snd] in *. destruct (c_resp c2) as [r|]; [|exact Hk].
+      match goal with |- context [if ?b then _ else _] => destruct b end; [|exact Hk].
+      apply save_no_opt. exact Hk.
+    - unfold redirect_exec.
+      destruct (m_question (c_query c)) as [|qu [|]]; try (apply Hk; exact Hs).
+      destruct (negb (qclass qu =? class_inet)); [apply Hk; exact Hs|].
+      destruct (f (qname qu)) as [tgt|]; [|apply Hk; exact Hs].
+      match goal with |- context [k (?c1, wd)] => specialize (Hk x (c1, wd) Hs); destruct (k (c1, wd)) as [[t [c2 w2]] err] end.
+      exact Hk.
+    - unfold ecs_exec. destruct (add_ecs fwd send preset mask4 mask6 c) as [[c1 forwarded]|]; [|exact Hs].
+      specialize (Hk x (c1, wd) Hs). destruct (k (c1, wd)) as [[t [c2 w2]] err].
+      unfold ost in *. cbn [fst snd] in *.
+      destruct err; [exact Hk|]. destruct forwarded; [|exact Hk].
+      destruct (c_resp_opt c2); [|exact Hk]. destruct (c_upstream_opt c2) as [uo|]; [|exact Hk].
+      destruct (first_code ecs_code (o_opts uo)); exact Hk.
+    - unfold fwdopt_exec. destruct (q_opt c); [|exact Hs].
+      match goal with |- context [k (?c1, wd)] => specialize (Hk x (c1, wd) Hs); destruct (k (c1, wd)) as [[t [c2 w2]] err] end.
+      unfold ost in *. cbn [fst snd] in *.
+      destruct err; [exact Hk|]. destruct (c_upstream_opt c2) as [uo|]; [|exact Hk].
+      destruct (c_resp_opt c2); exact Hk.
+  Qed.
+
+  Lemma entry_invS prog s : stores_no_opt (snd s) -> stores_no_opt (snd (fst (entry ups clock xp wp mp prog s))).
+  Proof.
+    intro H. unfold entry.
+    pose proof (run_seq_ok state (plug_env ups clock xp wp mp) unit invS
+                  (fun e => exec_x_invS (xp e)) reject_x_invS (fun w => wrap_w_invS w) prog tt s H) as R.
+    destruct (run_seq (plug_env ups clock xp wp mp) prog s) as [[t s'] err]. exact R.
+  Qed.
+End StoreSide.
+
+(** * C15, client side: the response OPT, and no OPT in R() *)
+Lemma hosts_reply_extra h q r : hosts_reply h q = Some r -> m_extra r = [].
+Proof.
+  unfold hosts_reply. destruct (m_question q) as [|qu [|]]; try discriminate.
+  destruct (negb (qclass qu =? class_inet) || negb ((qtype qu =? type_a) || (qtype qu =? type_aaaa))); [discriminate|].
+  destruct (h (qname qu)) as [v4 v6]. destruct (length v4 + length v6 =? 0)%nat; [discriminate|].
+  intro H. inversion H. match goal with |- context [match ?a with [] => _ | _ => _ end] => destruct a end; reflexivity.
+Qed.
+
+Lemma black_hole_reply_extra v4 v6 q r : black_hole_reply v4 v6 q = Some r -> m_extra r = [].
+Proof.
+  unfold black_hole_reply. destruct (m_question q) as [|qu [|]]; try discriminate.
+  destruct ((qtype qu =? type_a) && (0 <? length v4)%nat); [intro H; inversion H; reflexivity|].
+  destruct ((qtype qu =? type_aaaa) && (0 <? length v6)%nat); [intro H; inversion H; reflexivity|discriminate].
+Qed.
+
+Lemma arbitrary_reply_extra z q r : arbitrary_reply z q = Some r -> m_extra r = [].
+Proof.
+  unfold arbitrary_reply. destruct (flat_map z (m_question q)); [discriminate|].
+  intro H. inversion H. reflexivity.
+Qed.
+
+Section ClientSide.
+  Variable ups : N -> msg -> option msg.
+  Variable clock : N -> option N.
+  Variable xp : N -> xplugin.
+  Variable wp : N -> wplugin.
+  Variable mp : N -> matcher.
+  Variable co : option opt.        (* the client's OPT *)
+
+  (** Upstream replies carry at most one OPT (in the additional section). *)
+  Hypothesis up_ok : forall u q r, ups u q = Some r -> (count_opt (m_extra r) <= 1)%nat.
+
+  (** [e] is an option of the OPT of some upstream reply *)
+  Definition from_upstream (e : eopt) : Prop :=
+    exists u q r o, ups u q = Some r /\ find_opt (m_extra r) = Some o /\ In e (o_opts o).
+  (** a plugin of the table hands options with this code back to the client *)
+  Definition forwards_down (e : eopt) : Prop :=
+    (exists w codes, wp w = WFwdOpt codes /\ In (fst e) codes)
+    \/ (exists w send preset m4 m6, wp w = WEcs true send preset m4 m6 /\ fst e = ecs_code).
+  Definition allowed_down (e : eopt) : Prop := from_upstream e /\ forwards_down e.
+
+  Definition resp_opt_ok (ro : option opt) : Prop :=
+    match co with
+    | None => ro = None
+    | Some o => exists r, ro = Some r /\ o_udp r = edns0_size /\ o_do r = o_do o /\ o_ver r = 0 /\ o_ext r = 0
+                          /\ Forall allowed_down (o_opts r)
+    end.
+
+  Definition invD (_ : unit) (s : state) : Prop :=
+    c_client_opt (fst s) = co /\ resp_opt_ok (c_resp_opt (fst s))
+    /\ (forall uo, c_upstream_opt (fst s) = Some uo -> Forall from_upstream (o_opts uo))
+    /\ (forall r, c_resp (fst s) = Some r -> opts_of (m_extra r) = [])
+    /\ stores_no_opt (snd s).
+
+  Lemma invD_frame s s' :
+    c_client_opt (fst s') = c_client_opt (fst s) -> c_resp_opt (fst s') = c_resp_opt (fst s) ->
+    c_upstream_opt (fst s') = c_upstream_opt (fst s) -> c_resp (fst s') = c_resp (fst s) ->
+    w_store (snd s') = w_store (snd s) ->
+    forall x, invD x s -> invD x s'.
+  Proof.
+    intros E1 E2 E3 E4 E5 x (H1 & H2 & H3 & H4 & H5). unfold invD, stores_no_opt in *.
+    rewrite E1, E2, E3, E4, E5. auto.
+  Qed.
+
+  (** SetResponse with a message that has at most one OPT, whose options come from an upstream *)
+  Lemma set_response_invD c w w' rid m x :
+    (count_opt (m_extra m) <= 1)%nat ->
+    (forall o, find_opt (m_extra m) = Some o -> Forall from_upstream (o_opts o)) ->
+    w_store w' = w_store w ->
+    invD x (c, w) -> invD x (set_response c rid m, w').
+  Proof.
+    intros Hc Hf Ew (H1 & H2 & H3 & H4 & H5).
+    destruct (set_response_fields c rid m) as (_ & E2 & _ & E4 & _).
+    unfold invD, stores_no_opt. cbn [fst snd] in *. rewrite E2, E4, Ew.
+    split; [exact H1|]. split; [exact H2|].
+    unfold set_response. destruct (pop_opt (m_extra m)) as [[ex o]|] eqn:Hp; cbn.
+    - pose proof (pop_opt_some _ _ _ Hp) as Ho. split; [|split; [|exact H5]].
+      + intros uo E. inversion E; subst uo. apply Hf. unfold find_opt. now rewrite Hp.
+      + intros r E. inversion E; subst r. cbn. unfold count_opt in Hc. rewrite Ho, app_length in Hc.
+        cbn in Hc. destruct (opts_of ex); [reflexivity | cbn in Hc; lia].
+    - split; [discriminate|]. split; [|exact H5]. intros r E. inversion E; subst r. now apply pop_opt_none.
+  Qed.
+
+  Lemma set_fresh_local_invD s r x : m_extra r = [] -> invD x s -> invD x (set_fresh s r).
+  Proof.
+    intros He H. destruct s as [c w]. unfold set_fresh. apply set_response_invD with (w := w); try exact H.
+    - rewrite He. cbn. lia.
+    - rewrite He. cbn. discriminate.
+    - reflexivity.
+  Qed.
+
+  Lemma exec_x_invD p x s : invD x s -> invD x (fst (exec_x ups p s)).
+  Proof.
+    intro H. destruct s as [c w]. destruct p; cbn [exec_x].
+    - unfold set_opt. destruct (hosts_reply h (c_query c)) eqn:E; cbn [fst]; [|exact H].
+      apply set_fresh_local_invD; [eapply hosts_reply_extra; exact E | exact H].
+    - unfold set_opt. destruct (black_hole_reply v4 v6 (c_query c)) eqn:E; cbn [fst]; [|exact H].
+      apply set_fresh_local_invD; [eapply black_hole_reply_extra; exact E | exact H].
+    - unfold set_opt. destruct (arbitrary_reply z (c_query c)) eqn:E; cbn [fst]; [|exact H].
+      apply set_fresh_local_invD; [eapply arbitrary_reply_extra; exact E | exact H].
+    - destruct (c_resp c) as [r|] eqn:Er; cbn [fst]; [|exact H].
+      destruct H as (H1 & H2 & H3 & H4 & H5). repeat split; try assumption.
+      cbn. intros r' E. inversion E; subst r'.
+      destruct (ttl_apply_same_opts fix_ mn mx r) as (_ & _ & E3 & _). rewrite E3. apply H4. exact Er.
+    - assert (H' : invD x (c, log_up w u (wire (c_query c)))) by (revert H; apply invD_frame; reflexivity).
+      destruct (ups u (wire (c_query c))) as [r|] eqn:Eu; cbn [fst]; [|exact H'].
+      unfold set_fresh. eapply set_response_invD; [eapply up_ok; exact Eu | | reflexivity | exact H'].
+      intros o Ho. apply Forall_forall. intros e He. exists u, (wire (c_query c)), r, o. auto.
+    - cbn [fst]. destruct H as (H1 & H2 & H3 & H4 & H5). repeat split; try assumption; cbn; discriminate.
+  Qed.
+
+  Lemma reject_x_invD rc x s : invD x s -> invD x (reject_x rc s).
+  Proof. intro H. unfold reject_x. apply set_fresh_local_invD; [reflexivity | exact H]. Qed.
+
+  Lemma cache_invD inst k : okk invD k -> okk invD (cache_exec clock inst k).
+  Proof.
+    intros Hk x [c w] Hs. unfold cache_exec.
+    destruct (msg_key (c_query c)) as [key|]; [|apply Hk; exact Hs].
+    set (c1 := match get_cached clock key (w_store w inst) (w_next w) with
+               | Some r => set_response c (w_next w) (with_id r (m_id (c_query c)))
+               | None => c end).
+    assert (H1 : invD x (c1, bump w)).
+    { subst c1. destruct (get_cached clock key (w_store w inst) (w_next w)) as [r|] eqn:Eg.
+      - assert (Hr : opts_of (m_extra r) = []).
+        { unfold get_cached in Eg. destruct (lookup key (w_store w inst)) as [v|] eqn:El; [|discriminate].
+          destruct (clock (w_next w)); [|discriminate]. inversion Eg; subst r.
+          destruct (map_ttl_msg_same_opts (fun t => if n <? t then t - n else 1) v) as (_ & _ & E3 & _).
+          unfold subtract_ttl. rewrite E3. destruct Hs as (_ & _ & _ & _ & H5).
+          assert (Hin : In (key, v) (w_store w inst)).
+          { clear - El. induction (w_store w inst) as [|[k' v'] t IH]; cbn in El; [discriminate|].
+            destruct (list_eqb N.eqb key k') eqn:E.
+            - inversion El; subst. apply CacheKey.eqb_bytes_iff in E. subst. now left.
+            - right. auto. }
+          eapply H5. exact Hin. }
+        eapply set_response_invD; [ | | reflexivity | exact Hs].
+        + cbn. unfold count_opt. rewrite Hr. cbn. lia.
+        + cbn. intros o Ho. apply find_opt_in in Ho. rewrite Hr in Ho. destruct Ho.
+      - revert Hs. apply invD_frame; reflexivity. }
+    specialize (Hk x _ H1). destruct (k (c1, bump w)) as [[t [c2 w2]] err]. unfold ost in *. cbn [fst snd] in *.
+    destruct (c_resp c2) as [r|]; [|exact Hk].
+    match goal with |- context [if ?b then _ else _] => destruct b end; [|exact Hk].
+    destruct Hk as (H2 & H3 & H4 & H5 & H6). repeat split; try assumption.
+    apply save_no_opt. exact H6.
+  Qed.
+
+  Lemma redirect_invD f k : okk invD k -> okk invD (redirect_exec f k).
+  Proof.
+    intros Hk x [c w] Hs. unfold redirect_exec.
+    destruct (m_question (c_query c)) as [|qu [|]]; try (apply Hk; exact Hs).
+    destruct (negb (qclass qu =? class_inet)); [apply Hk; exact Hs|].
+    destruct (f (qname qu)) as [tgt|]; [|apply Hk; exact Hs].
+    assert (H1 : invD x (with_query c (set_q0_name (c_query c) tgt), w)) by (revert Hs; apply invD_frame; reflexivity).
+    specialize (Hk x _ H1). destruct (k (with_query c (set_q0_name (c_query c) tgt), w)) as [[t [c2 w2]] err].
+    unfold ost in *. cbn [fst snd] in *.
+    destruct (c_resp c2) as [r|] eqn:Er.
+    - destruct Hk as (H2 & H3 & H4 & H5 & H6). repeat split; try assumption.
+      cbn. intros r' E. inversion E; subst r'. cbn. apply H5. exact Er.
+    - revert Hk. apply invD_frame; cbn; first [reflexivity | symmetry; exact Er].
+  Qed.
+
+  Lemma resp_add_opts_invD c w es x :
+    Forall allowed_down es -> invD x (c, w) -> invD x (resp_add_opts c es, w).
+  Proof.
+    intros Hes (H1 & H2 & H3 & H4 & H5).
+    destruct (resp_add_opts_frame c es) as (E1 & _ & _ & E4 & E5).
+    unfold invD. cbn [fst snd] in *. rewrite E1, E4, E5. repeat split; try assumption.
+    unfold resp_add_opts, resp_opt_ok in *. destruct co as [o|].
+    - destruct H2 as (r & -> & F1 & F2 & F3 & F4 & F5). cbn. exists (add_opts r es). repeat split; try assumption.
+      cbn. apply Forall_app. split; assumption.
+    - rewrite H2. exact H2.
+  Qed.
+
+  Lemma add_ecs_forwarded fwd send preset m4 m6 c c1 : add_ecs fwd send preset m4 m6 c = Some (c1, true) -> fwd = true.
+  Proof.
+    unfold add_ecs. destruct (q_opt c) as [qo|]; [|discriminate].
+    destruct (m_question (c_query c)) as [|qu qs]; [discriminate|].
+    destruct (has_code ecs_code (o_opts qo)); [discriminate|].
+    destruct (negb (qclass qu =? class_inet)); [discriminate|].
+    destruct fwd; [reflexivity|]. destruct preset; [discriminate|]. destruct send; [|discriminate].
+    destruct (c_client_addr c); discriminate.
+  Qed.
+
+  Lemma add_ecs_frame fwd send preset m4 m6 c c1 b :
+    add_ecs fwd send preset m4 m6 c = Some (c1, b) ->
+    c_client_opt c1 = c_client_opt c /\ c_resp_opt c1 = c_resp_opt c /\ c_upstream_opt c1 = c_upstream_opt c
+    /\ c_resp c1 = c_resp c /\ c_rid c1 = c_rid c /\ m_question (c_query c1) = m_question (c_query c)
+    /\ m_id (c_query c1) = m_id (c_query c).
+  Proof.
+    unfold add_ecs. destruct (q_opt c) as [qo|]; [|discriminate].
+    destruct (m_question (c_query c)) as [|qu qs]; [discriminate|].
+    destruct (has_code ecs_code (o_opts qo)); [intro H; inversion H; subst; repeat split|].
+    destruct (negb (qclass qu =? class_inet)); [intro H; inversion H; subst; repeat split|].
+    destruct (if fwd then _ else None); [|destruct preset; [|destruct send; [destruct (c_client_addr c)|]]];
+      intro H; inversion H; subst; try (repeat split; fail);
+      match goal with |- context [q_add_opts c ?es] => destruct (q_add_opts_fields c es) as (? & ? & ? & ? & ? & ? & ? & ?) end;
+      repeat split; assumption.
+  Qed.
+
+  Lemma ecs_invD w fwd send preset m4 m6 k :
+    wp w = WEcs fwd send preset m4 m6 -> okk invD k -> okk invD (ecs_exec fwd send preset m4 m6 k).
+  Proof.
+    intros Hw Hk x [c wd] Hs. unfold ecs_exec.
+    destruct (add_ecs fwd send preset m4 m6 c) as [[c1 forwarded]|] eqn:Ha; [|exact Hs].
+    assert (H1 : invD x (c1, wd)).
+    { destruct (add_ecs_frame _ _ _ _ _ _ _ _ Ha) as (E1 & E2 & E3 & E4 & _).
+      revert Hs. apply invD_frame; cbn; congruence. }
+    specialize (Hk x _ H1). destruct (k (c1, wd)) as [[t [c2 w2]] err]. unfold ost in *. cbn [fst snd] in *.
+    destruct err; [exact Hk|]. destruct forwarded; [|exact Hk].
+    destruct (c_resp_opt c2); [|exact Hk]. destruct (c_upstream_opt c2) as [uo|] eqn:Eu; [|exact Hk].
+    destruct (first_code ecs_code (o_opts uo)) as [o|] eqn:Ef; [|exact Hk].
+    apply resp_add_opts_invD; [|exact Hk]. constructor; [|constructor].
+    apply first_code_some in Ef as [Hin Hc]. split.
+    - destruct Hk as (_ & _ & H3 & _). specialize (H3 _ Eu). rewrite Forall_forall in H3. apply H3. exact Hin.
+    - right. apply add_ecs_forwarded in Ha. subst fwd. exists w, send, preset, m4, m6. auto.
+  Qed.
+
+  Lemma fwdopt_invD w codes k :
+    wp w = WFwdOpt codes -> okk invD k -> okk invD (fwdopt_exec codes k).
+  Proof.
+    intros Hw Hk x [c wd] Hs. unfold fwdopt_exec.
+    destruct (q_opt c); [|exact Hs].
+    assert (H1 : invD x (match c_client_opt c with
+                         | Some co0 => q_add_opts c (pick_codes codes (o_opts co0))
+                         | None => c end, wd)).
+    { destruct (c_client_opt c) as [co0|]; [|exact Hs].
+      destruct (q_add_opts_fields c (pick_codes codes (o_opts co0))) as (E1 & _ & E3 & E4 & E5 & _).
+      revert Hs. apply invD_frame; cbn; congruence. }
+    specialize (Hk x _ H1).
+    destruct (k (match c_client_opt c with
+                 | Some co0 => q_add_opts c (pick_codes codes (o_opts co0))
+                 | None => c end, wd)) as [[t [c2 w2]] err].
+    unfold ost in *. cbn [fst snd] in *.
+    destruct err; [exact Hk|]. destruct (c_upstream_opt c2) as [uo|] eqn:Eu; [|exact Hk].
+    destruct (c_resp_opt c2); [|exact Hk]. apply resp_add_opts_invD; [|exact Hk].
+    apply Forall_forall. intros e He. apply pick_codes_in in He as [Hin Hc]. split.
+    - destruct Hk as (_ & _ & H3 & _). specialize (H3 _ Eu). rewrite Forall_forall in H3. apply H3. exact Hin.
+    - left. exists w, codes. auto.
+  Qed.
+
+  Lemma wrap_w_invD w k : okk invD k -> okk invD (wrap_w clock (wp w) k).
+  Proof.
+    intro Hk. destruct (wp w) eqn:Hw; cbn [wrap_w].
+    - apply cache_invD; exact Hk.
+    - apply redirect_invD; exact Hk.
+    - eapply ecs_invD; eassumption.
+    - eapply fwdopt_invD; eassumption.
+  Qed.
+
+  Lemma entry_invD prog s : invD tt s -> invD tt (fst (entry ups clock xp wp mp prog s)).
+  Proof.
+    intro H. unfold entry.
+    pose proof (run_seq_ok state (plug_env ups clock xp wp mp) unit invD
+                  (fun e => exec_x_invD (xp e)) reject_x_invD (fun w => wrap_w_invD w) prog tt s H) as R.
+    destruct (run_seq (plug_env ups clock xp wp mp) prog s) as [[t s'] err]. exact R.
+  Qed.
+End ClientSide.
